@@ -119,7 +119,7 @@ pub fn gen_case(r: &mut Runner, ind: &str, maxp: usize, maxlen: usize) -> Case {
     let ms: Vec<f64> = if crate::ind::arity(ind).unwrap().1 == 1 { vec![*r.rng.pick(&[0.0, 0.5, 1.0, 2.0, 3.0, 10.0])] } else { vec![] };
     let len = r.rng.range(1, maxlen);
     let regime = *r.rng.pick(gen::REGIMES);
-    let scale = *r.rng.pick(&[1e-3, 1.0, 100.0, 1e6, 1e9]);
+    let scale = *r.rng.pick(&[1e-3, 1.0, 100.0, 1e6, 1e9, 8.900295434028806e-308]);
     let bars_only = !crate::ind::has_next_name(ind);
     let use_bars = bars_only || r.rng.chance(0.5);
     // scalars of any sign (MACD feeds negative values to its signal EMA); bars positive
